@@ -54,7 +54,8 @@ CONSTANTS NTx,        \* transactions 1..NTx; parents of i are a subset of 1..i-
           MaxM,       \* ... of which MarkAsConfirmed calls
           Outs,       \* outcomes handed to the request handler's callback
           ROuts,      \* outcomes handed to a rebroadcast's callback
-          FixMarkQuit
+          FixMarkQuit,
+          Fine        \* TRUE: small-step semantics (model-level check), FALSE: big steps (replay)
 
 VARIABLES s, abs, act, viol
 vars == <<s, abs, act, viol>>
@@ -122,10 +123,13 @@ RSteps(x) ==
                     !.rbQ = <<>>, !.rbCur = 0, !.rbOut = "none"]}
     [] OTHER -> {}
 
-\* Callers blocked in the API.
+\* Callers blocked in the API.  reply = what the handler has put into the
+\* request's errChan (:190 / :196; 0 = nothing yet).
 CSteps(x) ==
        (IF x.bc \in {"send", "wait"} /\ x.quit             \* :305 / :312
-        THEN {[x EXCEPT !.bc = "none", !.lastB = 3]} ELSE {})
+        THEN {[x EXCEPT !.bc = "none", !.lastB = 3, !.reply = 0]} ELSE {})
+  \cup (IF x.bc = "wait" /\ x.reply # 0                    \* :310
+        THEN {[x EXCEPT !.bc = "none", !.lastB = x.reply, !.reply = 0]} ELSE {})
   \cup (IF FixMarkQuit /\ x.mk = "send" /\ x.quit
         THEN {[x EXCEPT !.mk = "none"]} ELSE {})
   \cup (IF x.stp = "wait" /\ x.h = "dead" /\ x.rb = "none" \* wg.Wait :118
@@ -167,8 +171,28 @@ Res(op, o2) ==
     [] op = "Block"     -> "delivered"
     [] OTHER            -> "ok"
 
-\* Apply input x1 (the state right after the environment's move), let the
-\* code run to quiescence in every possible way.
+\* The environment's moves as functions of the state (guards G*, effects E*).
+GBcast(x)   == x.bc = "none" /\ x.nops < MaxOps
+EBcast(x, t) == [x EXCEPT !.bc = "send", !.bctx = t, !.nops = @ + 1]       \* Broadcast :297
+GHRel(x)    == x.h = "cb"
+EHRel(x, o) ==                                             \* :179 returns, :180-196
+  LET acc == o \in AcceptOuts
+  IN  [x EXCEPT !.h = "idle", !.hreq = 0,
+                !.txs = IF acc THEN @ \cup {x.hreq} ELSE @,
+                !.reply = IF x.bc = "wait" THEN (IF acc THEN 1 ELSE 2) ELSE 0]
+GRbRel(x)   == x.rb = "cb"
+ERbRel(x, o) == [x EXCEPT !.rb = "ret", !.rbOut = o]       \* :248 returns
+GMark(x)    == x.mk = "none" /\ x.nops < MaxOps /\ x.nm < MaxM
+EMark(x, t) == [x EXCEPT !.mk = "send", !.mktx = t, !.nops = @ + 1, !.nm = @ + 1]  \* :319
+GBlock(x)   == x.h = "idle" /\ x.nops < MaxOps
+EBlock(x)   == Trigger([x EXCEPT !.nops = @ + 1])          \* :205
+GTick(x)    == x.h # "dead" /\ x.tick = 0 /\ x.nops < MaxOps
+ETick(x)    == [x EXCEPT !.tick = 1, !.nops = @ + 1]       \* the ticker fires
+GStop(x)    == x.stp = "none"
+EStop(x)    == [x EXCEPT !.stp = "wait", !.quit = TRUE]    \* :115
+
+\* BIG STEPS (the graph that is replayed): apply the input, let the code run
+\* to quiescence in every possible way.
 S0 == [s EXCEPT !.lastB = 0]     \* bcRes reports a return in THIS step only
 
 Do(x0, op, tx, out) ==
@@ -179,39 +203,27 @@ Do(x0, op, tx, out) ==
      /\ abs' = AbsNext(abs, act', ObsOf(y))
      /\ viol' = Viol(abs, Obs, act', abs', ObsOf(y))
 
-BcastCall(t) ==                                            \* Broadcast :297
-  /\ s.bc = "none" /\ s.nops < MaxOps
-  /\ Do([S0 EXCEPT !.bc = "send", !.bctx = t, !.nops = @ + 1], "BcastCall", t, "")
+BcastCall(t) == GBcast(s) /\ Do(EBcast(S0, t), "BcastCall", t, "")
+HRelease(o)  == GHRel(s)  /\ Do(EHRel(S0, o), "HRelease", s.hreq, o)
+RbRelease(o) == GRbRel(s) /\ Do(ERbRel(S0, o), "RbRelease", s.rbCur, o)
+MarkCall(t)  == GMark(s)  /\ Do(EMark(S0, t), "MarkCall", t, "")
+Block        == GBlock(s) /\ Do(EBlock(S0), "Block", 0, "")
+Tick         == GTick(s)  /\ Do(ETick(S0), "Tick", 0, "")
+Stop         == GStop(s)  /\ Do(EStop(S0), "Stop", 0, "")
 
-HRelease(o) ==                                             \* :179 returns, :180-196
-  /\ s.h = "cb"
-  /\ LET acc == o \in AcceptOuts
-         x1  == [S0 EXCEPT !.h = "idle", !.hreq = 0,
-                          !.txs = IF acc THEN @ \cup {s.hreq} ELSE @]
-         x2  == IF s.bc = "wait"
-                THEN [x1 EXCEPT !.bc = "none", !.lastB = IF acc THEN 1 ELSE 2]
-                ELSE x1
-     IN  Do(x2, "HRelease", s.hreq, o)
-
-RbRelease(o) ==                                            \* :248 returns
-  /\ s.rb = "cb"
-  /\ Do([S0 EXCEPT !.rb = "ret", !.rbOut = o], "RbRelease", s.rbCur, o)
-
-MarkCall(t) ==                                             \* MarkAsConfirmed :319
-  /\ s.mk = "none" /\ s.nops < MaxOps /\ s.nm < MaxM
-  /\ Do([S0 EXCEPT !.mk = "send", !.mktx = t, !.nops = @ + 1, !.nm = @ + 1], "MarkCall", t, "")
-
-Block ==                                                   \* :205
-  /\ s.h = "idle" /\ s.nops < MaxOps
-  /\ Do(Trigger([S0 EXCEPT !.nops = @ + 1]), "Block", 0, "")
-
-Tick ==                                                    \* the ticker fires
-  /\ s.h # "dead" /\ s.tick = 0 /\ s.nops < MaxOps
-  /\ Do([S0 EXCEPT !.tick = 1, !.nops = @ + 1], "Tick", 0, "")
-
-Stop ==                                                    \* :115
-  /\ s.stp = "none"
-  /\ Do([S0 EXCEPT !.stp = "wait", !.quit = TRUE], "Stop", 0, "")
+\* SMALL STEPS (Fine = TRUE; model-level check only, nothing is exported): the
+\* environment may move at ANY moment, also between two steps of the code, and
+\* any number of parties may wait for the handler.
+FineNext ==
+  /\ \/ \E t \in Txs : GBcast(s) /\ s' = EBcast(s, t)
+     \/ \E o \in Outs : GHRel(s) /\ s' = EHRel(s, o)
+     \/ \E o \in ROuts : GRbRel(s) /\ s' = ERbRel(s, o)
+     \/ \E t \in Txs : GMark(s) /\ s' = EMark(s, t)
+     \/ GBlock(s) /\ s' = EBlock(s)
+     \/ GTick(s) /\ s' = ETick(s)
+     \/ GStop(s) /\ s' = EStop(s)
+     \/ \E y \in IntSucc(s) : s' = y
+  /\ UNCHANGED <<abs, act, viol>>
 
 Init ==
   /\ \E f \in Graphs :
@@ -221,12 +233,12 @@ Init ==
             stp |-> "none", quit |-> FALSE, sem |-> 1, tick |-> 0,
             rb |-> "none", rbAll |-> {}, rbSent |-> {}, rbQ |-> <<>>,
             rbCur |-> 0, rbOut |-> "none",
-            nops |-> 0, nm |-> 0, rn |-> 0, lastB |-> 0]
+            nops |-> 0, nm |-> 0, rn |-> 0, lastB |-> 0, reply |-> 0]
   /\ abs = AbsInit
   /\ act = [op |-> "Init", tx |-> 0, out |-> "", res |-> "ok"]
   /\ viol = {}
 
-Next ==
+BigNext ==
   \/ \E t \in Txs : BcastCall(t)
   \/ \E o \in Outs : HRelease(o)
   \/ \E o \in ROuts : RbRelease(o)
@@ -234,6 +246,8 @@ Next ==
   \/ Block
   \/ Tick
   \/ Stop
+
+Next == IF Fine THEN FineNext ELSE BigNext
 
 Spec == Init /\ [][Next]_vars
 
@@ -246,8 +260,16 @@ TypeOK ==
   /\ s.sem \in {0, 1} /\ s.tick \in {0, 1}
   /\ s.rb \in {"none", "next", "cb", "ret", "conf", "fin"}
 
-\* Every state of the graph is quiescent.
-Quiescent == IntSucc(s) = {}
+\* Every state of the replayed graph is quiescent.
+Quiescent == Fine \/ IntSucc(s) = {}
+
+\* Small steps: whenever the code can do nothing more by itself and no gate
+\* is held, nobody is left inside Broadcast / MarkAsConfirmed / Stop.  (Every
+\* behaviour is finite - the inputs are bounded and every step of the code
+\* consumes something - so this is "every call eventually returns once the
+\* callbacks have returned", in every interleaving.)
+NoStuck == (IntSucc(s) = {} /\ s.h # "cb" /\ s.rb # "cb")
+           => (s.bc = "none" /\ s.mk = "none" /\ s.stp # "wait")
 
 \* One rebroadcast at a time; the token is out exactly while one runs.
 SemInv == (s.sem = 0) <=> (s.rb # "none")
@@ -256,7 +278,7 @@ SemInv == (s.sem = 0) <=> (s.rb # "none")
 SortedInv == \A c \in s.rbSent : (P(s, c) \cap s.rbAll) \subseteq s.rbSent
 
 \* A handler that is alive and idle leaves nobody waiting.
-IdleServes == s.h = "idle" => s.mk = "none" /\ s.bc = "none" /\ s.tick = 0 /\ s.rb # "conf"
+IdleServes == Fine \/ (s.h = "idle" => s.mk = "none" /\ s.bc = "none" /\ s.tick = 0 /\ s.rb # "conf")
 
 \* Design-level statement of C15 on the model; an invariant only for
 \* configurations whose switches describe repaired code.
